@@ -58,7 +58,7 @@ func (c *Ctx) Choose(opts []Option) int {
 				have = append(have, o.Label)
 			}
 			if c.Diverged == "" {
-				c.Diverged = fmt.Sprintf("choice point %d: prefix wants option %d %q, execution offers %v", n, p.Chosen, p.Label, have)
+				c.Diverged = fmt.Sprintf("choice point %d: prefix wants option %d %q, execution offers %v; trace so far: %v; prefix: %s", n, p.Chosen, p.Label, have, c.TraceLabels(), PrefixString(c.prefix))
 			}
 			// fall back to a matching label if there is one, else default
 			idx = 0
